@@ -40,6 +40,9 @@ TODAY = {"en": {0: ["today"], 1: ["tomorrow"], -1: ["yesterday"]},
          "tr": {0: ["bugün", "bugun"], 1: ["yarın", "yarin"], -1: ["dün", "dun"]}}
 
 
+CONFIG_DISAGREES = []
+
+
 def _check_config():
     path = "/repo/src/json/config.json"
     if not os.path.exists(path):
@@ -48,8 +51,10 @@ def _check_config():
     for lang, (lo, sh) in NAMES.items():
         L = cfg["languages"][lang]
         for i in range(12):
-            assert L["long_months"].get(lo[i]) == i + 1, (lang, lo[i])
-            assert L["short_months"].get(sh[i]) == i + 1, (lang, sh[i])
+            # the names are PINNED here (the oracle does not follow an edited table); a disagreement is not an error of
+            # the check: the generated dates written with the pinned names then fail to read and are reported
+            if L["long_months"].get(lo[i]) != i + 1 or L["short_months"].get(sh[i]) != i + 1:
+                CONFIG_DISAGREES.append((lang, lo[i], sh[i]))
 
 
 _check_config()
